@@ -408,7 +408,7 @@ func (e *engine) start(inst int) {
 func (e *engine) crash(inst int) {
 	s := e.s
 	s.killInst(inst)
-	for _, p := range s.procs {
+	for _, p := range s.procList() {
 		if p.inst == inst {
 			p.gone = true
 			if p.parked != nil {
@@ -424,11 +424,13 @@ func (e *engine) crash(inst int) {
 		select {
 		case <-done:
 			// remove the dead processes, restart the instance
+			s.mu.Lock()
 			for k, p := range s.procs {
 				if p.inst == inst {
 					delete(s.procs, k)
 				}
 			}
+			s.mu.Unlock()
 			delete(s.dead, inst)
 			e.start(inst)
 			return
@@ -439,7 +441,7 @@ func (e *engine) crash(inst int) {
 }
 
 func (e *engine) findProc(inst int, unit string) *proc {
-	for _, p := range e.s.procs {
+	for _, p := range e.s.procList() {
 		if p.inst == inst && p.unit == unit && !p.gone {
 			return p
 		}
@@ -727,7 +729,7 @@ func (e *engine) doOp(op string) {
 			s.loseLease(p.lease)
 		}
 	case "rw":
-		for _, p := range s.procs {
+		for _, p := range s.procList() {
 			if p.unit == f[1] && atoi(f[2]) < s.cursors[p.role] {
 				s.cursors[p.role] = atoi(f[2]) // a rewind only moves a committed position backwards (redelivery)
 			}
@@ -763,11 +765,7 @@ func runEngine(kind string, a []string) string {
 	e := &engine{c: c, s: newSim(), wfs: map[int]*workflow.Workflow[Obj, st]{}, cancels: map[int]context.CancelFunc{}, nproc: map[int]int{}, deadProcs: map[int]int{}}
 	e.s.stamp = c.opt["stamp"] != 0
 	e.s.blind = c.opt["blind"] != 0
-	if c.opt["dl"] != 0 {
-		errInjected = errInjectedDeadline
-	} else {
-		errInjected = errInjectedPlain
-	}
+	e.s.deadlineErrs = c.opt["dl"] != 0
 	for i := 1; i <= int(c.opt["inst"]); i++ {
 		e.start(i)
 	}
@@ -798,7 +796,7 @@ func runEngine(kind string, a []string) string {
 func (e *engine) shutdown(inst int) {
 	s := e.s
 	s.killInst(inst)
-	for _, p := range s.procs {
+	for _, p := range s.procList() {
 		if p.inst == inst {
 			p.gone = true
 			if p.parked != nil {
